@@ -15,6 +15,8 @@ import (
 	"go/token"
 	"go/types"
 	"os"
+	"path/filepath"
+	"sort"
 
 	"golang.org/x/tools/go/packages"
 )
@@ -88,6 +90,56 @@ func main() {
 				}
 				ren[o] = true
 			}
+		}
+		if os.Getenv("LOGS") != "" {
+			// a debug statement before every statement of every function body (text insertion at statement starts)
+			for i, f := range p.Syntax {
+				var offs []int
+				note := func(l []ast.Stmt) {
+					for _, st := range l {
+						switch st.(type) {
+						case *ast.CaseClause, *ast.CommClause:
+							continue
+						}
+						offs = append(offs, p.Fset.Position(st.Pos()).Offset)
+					}
+				}
+				ast.Inspect(f, func(nd ast.Node) bool {
+					if x, ok := nd.(*ast.FuncDecl); ok {
+						if x.Body != nil {
+							ast.Inspect(x.Body, func(nd ast.Node) bool {
+								switch y := nd.(type) {
+								case *ast.BlockStmt:
+									note(y.List)
+								case *ast.CaseClause:
+									note(y.Body)
+								case *ast.CommClause:
+									note(y.Body)
+								}
+								return true
+							})
+						}
+						return false
+					}
+					return true
+				})
+				src, err := os.ReadFile(p.CompiledGoFiles[i])
+				if err != nil {
+					panic(err)
+				}
+				sort.Sort(sort.Reverse(sort.IntSlice(offs)))
+				for _, o := range offs {
+					src = append(src[:o:o], append([]byte("if grpcVerifDbg {\nprintln()\n}\n"), src[o:]...)...)
+					n++
+				}
+				if err := os.WriteFile(p.CompiledGoFiles[i], src, 0o644); err != nil {
+					panic(err)
+				}
+			}
+			if len(p.CompiledGoFiles) > 0 {
+				os.WriteFile(filepath.Join(filepath.Dir(p.CompiledGoFiles[0]), "zz_verifdbg.go"), []byte("package "+p.Name+"\n\nvar grpcVerifDbg bool\n"), 0o644)
+			}
+			continue
 		}
 		swapCmp, swapIf := os.Getenv("SWAPCMP") != "", os.Getenv("SWAPIF") != ""
 		mirror := map[token.Token]token.Token{token.EQL: token.EQL, token.NEQ: token.NEQ, token.LSS: token.GTR, token.GTR: token.LSS, token.LEQ: token.GEQ, token.GEQ: token.LEQ}
